@@ -10,9 +10,9 @@ cd "$wt" || exit 2
 echo "== verify in $wt"
 PYTHONPATH=$wt /venv/bin/python -m pytest -q -p no:cacheprovider 2>&1 | tail -1
 PYTHONPATH=$wt timeout 300 /venv/bin/python seeded/demo.py > /tmp/seed_demo_with.log 2>&1; echo "demo WITH change: rc=$? $(tail -1 /tmp/seed_demo_with.log | cut -c1-80)"
-git stash -q
+git diff > /tmp/seedtest_wt.diff; git checkout -q -- .
 PYTHONPATH=$wt timeout 300 /venv/bin/python seeded/demo.py > /tmp/seed_demo_without.log 2>&1; echo "demo WITHOUT change: rc=$? $(tail -1 /tmp/seed_demo_without.log | cut -c1-80)"
-git stash pop -q
+git apply /tmp/seedtest_wt.diff
 mkdir -p /verif/seeded/$name
 cp seeded/patch.diff seeded/demo.py seeded/meta.json /verif/seeded/$name/ 2>/dev/null
 cd /repo
